@@ -18,6 +18,36 @@ def parseBlk (j : Json) : Except String RBlk := do
   | "t" => return .table (← parseList (parseList (parseList parseStr)) (← elemJ a 1))
   | other => throw s!"unknown rtf block {other}"
 
+def layStr (j : Json) (k : String) (dflt : Str) : Except String Str :=
+  match j.getObjVal? k with
+  | .ok v => do return chars (← v.getStr?)
+  | .error _ => return dflt
+
+/-- a row layout: an object with the slots of `harness/builders/c13r.py` (a missing slot = the default) -/
+def parseLayout (j : Json) : Except String RowLayout := do
+  let D := RowLayout.default
+  if j.isNull then return D
+  return { defsOpen := ← layStr j "defs_open" D.defsOpen, cellxSep := ← layStr j "cellx_sep" D.cellxSep,
+           defsClose := ← layStr j "defs_close" D.defsClose, cellOpen := ← layStr j "cell_open" D.cellOpen,
+           par := ← layStr j "par" D.par, cellWrap := ← layStr j "cell_wrap" D.cellWrap, cellEnd := ← layStr j "cell_end" D.cellEnd,
+           rowOpen := ← layStr j "row_open" D.rowOpen, beforeRow := ← layStr j "before_row" D.beforeRow, rowEnd := ← layStr j "row_end" D.rowEnd }
+
+/-- block = ["p", text] | ["t", rows] | ["tl", rows, [layout…]] (one layout per row) -/
+def parseLBlk (j : Json) : Except String LBlk := do
+  let a ← j.getArr?
+  let k ← elemStr a 0
+  match str k with
+  | "p" => return .para (← elemStr a 1)
+  | "t" =>
+    let rows ← parseList (parseList (parseList parseStr)) (← elemJ a 1)
+    return .table (rows.map (fun r => (RowLayout.default, r)))
+  | "tl" =>
+    let rows ← parseList (parseList (parseList parseStr)) (← elemJ a 1)
+    let lays ← parseList parseLayout (← elemJ a 2)
+    if lays.length != rows.length then throw "tl: one layout per row expected"
+    return .table (lays.zip rows)
+  | other => throw s!"unknown rtf block {other}"
+
 def text (j : Json) : Except String Str := do return chars (← getStr j "text")
 
 def handle (op : String) (j : Json) : Option (Except String Json) :=
@@ -30,6 +60,9 @@ def handle (op : String) (j : Json) : Option (Except String Json) :=
   | "c13.rtf.render" => some (do
       let doc ← parseList parseBlk (← j.getObjVal? "blocks")
       return Json.mkObj [("text", jStr (docRtf doc)), ("spec", gridsJson (doc.flatMap RBlk.tables))])
+  | "c13.rtf.renderl" => some (do
+      let doc ← parseList parseLBlk (← j.getObjVal? "blocks")
+      return Json.mkObj [("text", jStr (docRtfL doc)), ("spec", gridsJson (doc.flatMap LBlk.tables))])
   | _ => none
 
 end S2T.Drv.C13Rtf
